@@ -1,0 +1,27 @@
+//go:build verif
+
+package cache
+
+import (
+	"os"
+	"strings"
+	"time"
+)
+
+// verifYield lets an outside harness hold this process at a named point: when the environment
+// variable GITBUG_VERIF_YIELD is "<point>=<path>", reaching <point> creates <path>.reached and
+// waits (at most 20 seconds) for <path>.go to appear.
+func verifYield(point string) {
+	spec := os.Getenv("GITBUG_VERIF_YIELD")
+	name, path, ok := strings.Cut(spec, "=")
+	if !ok || name != point {
+		return
+	}
+	_ = os.WriteFile(path+".reached", []byte(point), 0o644)
+	for i := 0; i < 4000; i++ {
+		if _, err := os.Stat(path + ".go"); err == nil {
+			return
+		}
+		time.Sleep(5 * time.Millisecond)
+	}
+}
